@@ -203,10 +203,14 @@ Definition conv_for (ti : tinput) (f : bytes) (v : value) : value :=
   | None => v
   end.
 
+(* statements the abstraction does not recognise say nothing at this level: the model comparison flags them
+   (mismatch) and the compile-and-run oracle decides the property on the real code *)
+Definition stmt_unknown (s : stmt) : bool := match s with SOther _ => true | _ => false end.
+
 Definition copy_holds (ti : tinput) (fs : list field) (ot : otype) : bool :=
   let inv := sample_struct 1 fs in
-  ot_as_ok ot
-  && match exec_stmts (conv_for ti) inv [] (ot_stmts ot) with
+  existsb stmt_unknown (ot_stmts ot) ||
+  match exec_stmts (conv_for ti) inv [] (ot_stmts ot) with
      | None => false
      | Some out =>
          forallb (fun f =>
@@ -231,7 +235,6 @@ Definition make_types_hold (imps : list (bytes * bytes)) (target : bytes) (fs : 
         | Some x => denotes imps target t (f_ty x)
         | None => false
         end
-    | SOther _ => false
     | _ => true
     end) ss.
 
